@@ -140,6 +140,7 @@ def gen_random(scn, rng, depth, topology=False):
     days = 0
     deferred = False
     detached = set()
+    blacked = set()
     for _ in range(depth):
         r = rng.random()
         free = [a for a in scn['apps'] if a not in apps]
@@ -196,10 +197,20 @@ def gen_random(scn, rng, depth, topology=False):
         elif r < 0.69 and not topology:
             hist.append(('SetPartition', [rng.choice(sorted(exists or servers)), rng.choice(['_default', 'pB'])]))
         elif r < 0.69:
-            # an administrator takes a rack out of the cell / puts it back
-            rack = rng.choice(sorted(scn['racks']))
-            hist.append(('AttachRack' if rack in detached else 'DetachRack', [rack]))
-            detached ^= {rack}
+            rr = rng.random()
+            if rr < 0.4:
+                # an administrator takes a rack out of the cell / puts it back
+                rack = rng.choice(sorted(scn['racks']))
+                hist.append(('AttachRack' if rack in detached else 'DetachRack', [rack]))
+                detached ^= {rack}
+            elif rr < 0.7 and exists:
+                s = rng.choice(sorted(exists))
+                hist.append(('ClearBlackout' if s in blacked else 'Blackout', [s]))
+                blacked ^= {s}
+            elif exists:
+                # re-parented to another rack - or to a bucket nobody defined
+                hist.append(('SetParent', [rng.choice(sorted(exists)),
+                                           rng.choice(sorted(scn['racks']) + ['rack:nosuch'])]))
         elif r < 0.72 and exists:
             s = rng.choice(sorted(exists))
             st = rng.choice(['frozen', 'up', 'down'])
